@@ -620,26 +620,53 @@ def check_property(prop, tier, seed, replay=None):
     if undecided:
         for u in undecided:
             print('UNDECIDED property=%s reason=%s' % (prop, u))
+    # ------------------------------------------------ concrete witness (only after the verifier failed / could not decide on CHANGED code)
+    any_changed = any(r2.changed for r in results for r2 in r['regions']) or any('lost anchor' in u or 'compile' in u or 'unclassified' in u for u in undecided)
+    wit = None
+    if (real or undecided) and any_changed and os.environ.get('VERIF_WITNESS', '1') != '0':
+        try:
+            import witness as W
+            wit = W.search(A.REPO)
+        except Exception as e:  # the witness search never changes a verdict by failing
+            wit = dict(status='witness search failed: %r' % (e,), diffs=[])
+    rel = [d for d in (wit or {}).get('diffs', []) if prop in d['props']]
+    rel_verdict = [d for d in rel if d.get('level') == 'verdict']
     if real:
         # replay file
         h = hashlib.sha256(json.dumps([(f['function'], f['label'], f['expr']) for f in real], sort_keys=True).encode()).hexdigest()[:10]
         rp = os.path.join(REPLAY, '%s_%s.json' % (prop, h))
-        witness = None
-        try:
-            import witness as W
-            witness = W.search(prop, real)
-        except Exception as e:  # witness search only upgrades a report
-            witness = None
         with open(rp, 'w') as f:
-            json.dump(dict(property=prop, failed_obligations=real, witness=witness,
+            json.dump(dict(property=prop, failed_obligations=real,
+                           failing_inputs=dict(how='witness/diff/diff_harness.rs run on the proven baseline %s and on the tree under check (same fixed-seed inputs); '
+                                                   'for a functional contract the baseline output is the specification value' % (wit or {}).get('baseline'),
+                                               status=(wit or {}).get('status', 'not searched'), cases=rel[:25]) if wit else None,
                            verifier_output=[d.get('rendered') for r in results for d in r['res']['diags']
                                             if d.get('level') == 'error' and any(sp.get('line_start') in {f['out_line'] for f in real} for sp in d.get('spans', []))][:20],
-                           how_to_replay='./check %s --replay %s' % (prop, rp)), f, indent=1)
+                           how_to_replay='./check %s   (re-runs the verifier on the current tree);  python3 vf/witness.py <repo>   (re-runs the concrete inputs)' % prop), f, indent=1)
         for f in real:
             print('FAILED-OBLIGATION property=%s unit=%s function=%s label=%s kind=%s at %s:%s expr=%s' % (
                 prop, f['unit'], f['function'], f['label'], f['kind'], f['repo_file'], f['repo_line'], f['expr']))
-        tail = '' if witness else ' no-failing-input-found'
+        for d in rel[:3]:
+            print('FAILING-INPUT property=%s item=%s case=%s level=%s functions=%s' % (prop, d['item'], d['case'], d.get('level'), d['functions']))
+        tail = (' failing-input=%s/%s' % (rel[0]['item'], rel[0]['case'])) if rel else ' no-failing-input-found'
         print('VIOLATION property=%s replay=%s obligations=%d%s' % (prop, rp, len(real), tail))
+        return 1
+    if undecided and rel_verdict:
+        # The ghost text no longer applies to the rewritten code, so the obligations could not be re-verified; but the code departs
+        # from the proven baseline on concrete inputs in a way the (functional / iff) contracts of this property exclude.
+        h = hashlib.sha256(json.dumps([(d['item'], d['case']) for d in rel_verdict], sort_keys=True).encode()).hexdigest()[:10]
+        rp = os.path.join(REPLAY, '%s_%s.json' % (prop, h))
+        with open(rp, 'w') as f:
+            json.dump(dict(property=prop, failed_obligations=[],
+                           decided_by='concrete counterexample against the proven baseline: the obligations below could not be re-verified '
+                                      '(reasons listed), and on the listed inputs the tree under check returns a different verdict / value than '
+                                      'the baseline %s, whose result is the specification value (contracts of the form result == spec, is_ok <==> P)' % wit.get('baseline'),
+                           undecided_reasons=undecided, failing_inputs=dict(status=wit.get('status'), cases=rel_verdict[:25]),
+                           how_to_replay='python3 vf/witness.py <repo>'), f, indent=1)
+        for d in rel_verdict[:3]:
+            print('FAILING-INPUT property=%s item=%s case=%s level=%s functions=%s' % (prop, d['item'], d['case'], d.get('level'), d['functions']))
+        print('VIOLATION property=%s replay=%s obligations=0 failing-input=%s/%s (obligations not re-verifiable on the rewritten code; decided by replaying concrete inputs against the proven baseline)' % (
+            prop, rp, rel_verdict[0]['item'], rel_verdict[0]['case']))
         return 1
     if undecided:
         return 2
